@@ -216,14 +216,44 @@ def execute(behaviours, d, tag, procs):
     return allp
 
 
+CHUNK_LINES = 12000
+
+
+def validate(trace, d, tag, procs):
+    """TLC judges the trace in chunks of whole behaviours (the Json module holds a whole file in memory); returns
+    (fails with line numbers of the whole trace, number of validated lines)"""
+    chunks, cur, n, start = [], [], 0, 1
+    with open(trace) as fh:
+        for line in fh:
+            if line.startswith('{"t":') and '"a":"Open"' in line[:40] and len(cur) >= CHUNK_LINES:
+                chunks.append((start, cur))
+                start, cur = n + 1, []
+            cur.append(line)
+            n += 1
+    if cur:
+        chunks.append((start, cur))
+
+    def one(i):
+        off, lines = chunks[i]
+        p = os.path.join(d, 'chunk-%s-%d.ndjson' % (tag, i))
+        with open(p, 'w') as fh:
+            fh.writelines(lines)
+        res = core.tlc_trace('Trace_ConfigPrec.tla', 'Trace_ConfigPrec.cfg', p, timeout=1700)
+        os.remove(p)
+        return [(k, t, ln + off - 1, a, nm) for k, t, ln, a, nm in res['fails']], res['validated'] or 0
+    with concurrent.futures.ThreadPoolExecutor(max_workers=max(1, min(procs, 4))) as ex:
+        done = list(ex.map(one, range(len(chunks))))
+    return [f for fs, _ in done for f in fs], sum(v for _, v in done)
+
+
 def judge(rep, behaviours, d, tag, procs, stats):
     by_id = {b['id']: b for b in behaviours}
     trace = execute(behaviours, d, tag, procs)
-    res = core.tlc_trace('Trace_ConfigPrec.tla', 'Trace_ConfigPrec.cfg', trace, timeout=1700)
-    stats['lines'] = stats.get('lines', 0) + (res['validated'] or 0)
+    fails, validated = validate(trace, d, tag, procs)
+    stats['lines'] = stats.get('lines', 0) + validated
     events = None
     firsts = {}
-    for kind, tid, line, action, name in res['fails']:
+    for kind, tid, line, action, name in fails:
         b = by_id.get(tid)
         if kind == 'C':
             raise core.Inconclusive('the trace has a line the specification does not know (behaviour %s, line %s)' % (tid, line))
@@ -249,7 +279,6 @@ def judge(rep, behaviours, d, tag, procs, stats):
                     % (name, action, b['cfg']['level'], b['cfg']['file'] if b['cfg']['hasFile'] else '(none)',
                        b['steps'][:max(nsteps, 0)], [sparse(e) for e in ev['st']['eff']], ev.get('err', '')))
             rep.classify(sig, desc, {'behaviours': [dict(b, steps=b['steps'][:max(nsteps, 0)], id=1)]})
-    return res
 
 
 def relevant(b):
